@@ -129,7 +129,11 @@ def obligations():
             mh = MeshHarness(args=q['args'], call=q['call'], post='\n'.join(post), op=q['op'], pre=pre,
                              snap='  witness(&o, %s);\n  COVER(1, "reachable");' % ', '.join(wargs(q['args'])),
                              list_arg='ovm_list' if q.get('list_arg') else None)
-            obs.append(Ob(id='%s.%s' % (prop0, n), props=q['props'] + ['C20'], tu='kernel', tier='B', roots=q['roots'] + ROOTS_BUILD, harness=mh,
+            slow = n in ('find_halfface_in_cell.prism',)
+            heavy = qn in ('find_halfedge_in_cell', 'find_halfface_in_cell', 'find_halfface_vertices', 'find_halfface_halfedges', 'find_halfface_extensive', 'adjacent_halfface_in_cell')
+            qf = [] if slow else ([prop0] if (not heavy or sh in ('tet', 'quadpillow')) else [])
+            if prop0 in ('C10', 'C01') and not heavy and sh in ('prism', 'open'): qf.append('C20')
+            obs.append(Ob(id='%s.%s' % (prop0, n), props=q['props'] + ['C20'], quick_for=qf, tu='kernel', tier='B', roots=q['roots'] + ROOTS_BUILD, harness=mh,
                           includes=['wf.h', 'view.h', 'add_spec.h', 'query_spec.h', 'shapes.h'], copies=[TK], defines=dict(DEFS), unwind=20, covers=1, timeout=900,
                           inits={'tk_init': TK}, adaptive_unwind=True, unwind_start=7, prebuild_shape=SHAPES[sh],
                           bounds=dict(shape=sh, arguments='all handles of the shape (symbolic)'),
